@@ -10,6 +10,17 @@ pub use clap::Parser;
 pub use cmd_args::*;
 pub use server::{AsyncConnection, ExitError, run_ls};
 
+/// Verification hook: lets an in-process harness drive the real dispatch
+/// layer (`on_*_handler`, `initialized_handler`) over an in-memory connection.
+#[cfg(feature = "verif_hooks")]
+pub mod verif_api {
+    pub use crate::context::*;
+    pub use crate::handlers::{
+        ClientConfig, init_analysis, initialized_handler, on_notification_handler,
+        on_request_handler, on_response_handler, server_capabilities,
+    };
+}
+
 #[macro_use]
 extern crate rust_i18n;
 rust_i18n::i18n!("./locales", fallback = "en");
